@@ -16,15 +16,15 @@
   length; every truncation of an accepted file is rejected; an accepted file
   ends with the EOF opcode and a footer that is zero or the CRC64 of everything
   before it — hence a single-byte alteration of a checksummed file is refused
-  unless the CRC64 of the altered bytes collides with the original one
-  (`alteration_detected_partial`; the full statement is `alteration_detected_stmt`)
-  or the alteration turns the footer itself into eight zero bytes ("checksum
-  disabled", `zero_footer_exception`). These theorems speak about inputs whose
+  (`alteration_detected`: CRC-64/Jones separates strings that differ in one
+  byte) unless the alteration turns the footer itself into eight zero bytes
+  ("checksum disabled", `zero_footer_exception`). These theorems speak about inputs whose
   parse path stays inside the modelled grammar: outcome `unsup` is neither
   `done` nor `err` (see Model/RdbFrame.lean for what is outside).
 -/
 import GunYu.Proofs.RdbFanout
 import GunYu.Proofs.RdbFrame
+import GunYu.Proofs.Crc64Burst
 
 namespace GunYu.Props.C04
 open GunYu
@@ -169,7 +169,7 @@ theorem set_covered_of_lt (f : Bytes) (i : Nat) (b : UInt8) (hi : i < f.length -
     bytes the checksum covers): the altered file is refused unless the CRC64 of
     its covered bytes equals the original CRC64 — a collision between two byte
     strings that differ in exactly one byte. -/
-theorem alteration_detected_partial (maxVer : Nat) (f : Bytes) (n m i : Nat) (b : UInt8)
+theorem alteration_needs_crc_collision (maxVer : Nat) (f : Bytes) (n m i : Nat) (b : UInt8)
     (hf : parse maxVer f = .done n) (hnz : Rdb.ofLE (footerOf f) ≠ 0)
     (hi : i < f.length - 8) (hb : f[i]? ≠ some b)
     (hg : parse maxVer (f.set i b) = .done m) :
@@ -230,14 +230,33 @@ theorem zero_footer_exception (maxVer : Nat) (f : Bytes) (n m i : Nat) (b : UInt
       rw [hidx, List.getElem?_set_self hi2] at h1
       exact hb h1
 
-/-- the full statement: a single-byte alteration of the covered bytes is always
-    refused. It follows from `alteration_detected_partial` plus "CRC-64/Jones
-    detects every single-byte change" (a burst shorter than the polynomial's
-    degree), which is not proved here. -/
-def alteration_detected_stmt : Prop :=
-  ∀ (maxVer : Nat) (f : Bytes) (n i : Nat) (b : UInt8),
-    parse maxVer f = .done n → Rdb.ofLE (footerOf f) ≠ 0 → i < f.length - 8 → f[i]? ≠ some b →
-      ∀ m, parse maxVer (f.set i b) ≠ .done m
+/-- **every single-byte alteration of a byte covered by the checksum is refused**:
+    `alteration_needs_crc_collision` + CRC-64/Jones (as the repo computes it)
+    separates any two strings that differ in exactly one byte
+    (Proofs/Crc64Burst.lean). -/
+theorem alteration_detected (maxVer : Nat) (f : Bytes) (n i : Nat) (b : UInt8)
+    (hf : parse maxVer f = .done n) (hnz : Rdb.ofLE (footerOf f) ≠ 0)
+    (hi : i < f.length - 8) (hb : f[i]? ≠ some b) :
+    ∀ m, parse maxVer (f.set i b) ≠ .done m := by
+  intro m hg
+  obtain ⟨_, hcrc⟩ := alteration_needs_crc_collision maxVer f n m i b hf hnz hi hb hg
+  have hlen : i < (covered f).length := by unfold covered; rw [List.length_take]; omega
+  have hset : covered (f.set i b) = (covered f).set i b := by
+    unfold covered; rw [List.length_set, List.take_set]
+  have hx : (covered f)[i]'hlen ≠ b := by
+    intro h
+    apply hb
+    have : (covered f)[i]? = some b := by rw [List.getElem?_eq_getElem hlen, h]
+    unfold covered at this
+    rw [List.getElem?_take_of_lt hi] at this
+    exact this
+  have h1 : covered f = (covered f).take i ++ (covered f)[i]'hlen :: (covered f).drop (i + 1) := by
+    rw [List.getElem_cons_drop, List.take_append_drop]
+  have h2 : (covered f).set i b = (covered f).take i ++ b :: (covered f).drop (i + 1) := by
+    rw [List.set_eq_take_append_cons_drop, if_pos hlen]
+  rw [hset, h2] at hcrc
+  conv at hcrc => rhs; rw [h1]
+  exact Rdb.crc64Tab_single_byte _ _ _ _ hx hcrc.symm
 
 /-! non-vacuity: a 2-key snapshot (REDIS0009, SELECTDB 0, "a"→"1" int-encoded,
     list "l" = [x, y], EOF, CRC64) -/
